@@ -111,6 +111,10 @@ func (r *Run) Eventf(format string, args ...any) {
 // (kinds and outcomes, not values). Distinct signatures = distinct interleavings.
 func (r *Run) Sig(s string) { r.sigHash = mix(r.sigHash, s) }
 
+// SigSet feeds the signature order-insensitively (for events whose relative order the system
+// under test decides by map iteration or a multi-way select).
+func (r *Run) SigSet(s string) { r.sigHash += mix(14695981039346656037, s) * 0x9e3779b97f4a7c15 }
+
 func (r *Run) Hit(name string)            { r.Counters[name]++ }
 func (r *Run) Add(name string, n int64)   { r.Counters[name] += n }
 func (r *Run) Digest() string             { return fmt.Sprintf("%016x", r.logHash) }
